@@ -162,6 +162,7 @@ type Path struct {
 
 	extra      map[string]interface{}
 	panicTrace string
+	solverHint string
 	ranges     map[int32]*rng
 	rangeHits  int64
 }
@@ -246,7 +247,7 @@ func (p *Path) check(extra *Term, wantModel, assertion bool) (string, Model) {
 		p.w.cacheHits++
 		return "sat", m
 	}
-	res, m := p.w.solver.Check(lits, p.vars, wantModel, assertion)
+	res, m := p.w.solver.Check(lits, p.vars, wantModel, assertion, p.solverHint)
 	if res == "sat" && m != nil {
 		p.w.remember(m)
 	}
